@@ -15,7 +15,8 @@ EXTENDS TreeOps, Gen_Names, Gen_Adjust, Defects
 TcDefectNames == {"tc-special-set", "tc-dialog-no-close-p", "tc-endbr-keeps-frameset-ok", "tc-afterbody-space",
                   "tc-command-void-in-head", "tc-chars-token-granularity", "tc-textarea-stays-in-body",
                   "tc-cell-caption-ws-base", "tc-intable-other-drops-reprocess", "tc-frameset-pop-name-only",
-                  "tc-adoption-inner-loop-3", "tc-anyotherend-ignores-namespace", "tc-isindex-expansion"}
+                  "tc-adoption-inner-loop-3", "tc-anyotherend-ignores-namespace", "tc-isindex-expansion",
+                  "tc-no-rb-rtc", "tc-table-pre-lf-kept"}
 Std(d) == d \notin KnownDefects
 
 \* ---------------------------------------------------------------------------------------------
@@ -38,7 +39,9 @@ IsSpecial(nd) ==
     ELSE \/ (nd.ns = "html" /\ nd.n \in SpecialHtmlCode)
          \/ (nd.ns = "svg" /\ nd.n = N_foreignObject)
 Formatting == {N_a, N_b, N_big, N_code, N_em, N_font, N_i, N_nobr, N_s, N_small, N_strike, N_strong, N_tt, N_u}
+\* html5lib's list; the standard's also has rb and rtc (named deviation tc-no-rb-rtc)
 ImpliedEnd == {N_dd, N_dt, N_li, N_option, N_optgroup, N_p, N_rp, N_rt}
+              \cup (IF Std("tc-no-rb-rtc") THEN {N_rb, N_rtc} ELSE {})
 TableInsertMode == {N_table, N_tbody, N_tfoot, N_thead, N_tr}
 \* scope boundaries: <<ns, name>> pairs
 ScopeBase == {<<"html", N_applet>>, <<"html", N_caption>>, <<"html", N_html>>, <<"html", N_marquee>>, <<"html", N_object>>,
@@ -400,8 +403,11 @@ StartTag(ps, mode, tok) ==
         ELSE IF nm = N_select THEN
             NoRe([InsertHtml(Reconstruct(ps), tok) EXCEPT !.fok = FALSE,
                         !.mode = IF ps.mode \in InTableModes THEN "inSelectInTable" ELSE "inSelect"])
-        ELSE IF nm \in {N_rp, N_rt} THEN
+        ELSE IF nm \in {N_rb, N_rtc} /\ Std("tc-no-rb-rtc") THEN
             NoRe(InsertHtml(IF NameInScope(ps, N_ruby, "default") THEN GenImplied(ps, None) ELSE ps, tok))
+        ELSE IF nm \in {N_rp, N_rt} THEN
+            NoRe(InsertHtml(IF NameInScope(ps, N_ruby, "default")
+                            THEN GenImplied(ps, IF Std("tc-no-rb-rtc") THEN N_rtc ELSE None) ELSE ps, tok))
         ELSE IF nm \in {N_option, N_optgroup} THEN
             LET p1 == IF CurName(ps) = N_option THEN NoRe(EndTag(ps, ps.mode, ImpliedEndTok(N_option))) ELSE ps
             IN NoRe(InsertHtml(Reconstruct(p1), tok))
@@ -720,7 +726,12 @@ Chars(ps, mode, cls, data) ==
         ELSE NoRe([InsertTextCur(Reconstruct(ps), data) EXCEPT !.fok = FALSE])
     [] mode = "text" -> NoRe(InsertTextCur(ps, data))
     [] mode \in {"inTable", "inTableBody", "inRow"} ->
-        Chars([ps EXCEPT !.pttOrig = ps.mode, !.mode = "inTableText"], "inTableText", cls, data)
+        \* the standard ignores an LF that directly follows <pre>/<listing>/<textarea> here too; html5lib's table text path keeps it
+        IF Std("tc-table-pre-lf-kept") /\ ps.dropLF /\ cls = "ws" /\ data[1] = 10
+           /\ CurName(ps) \in {N_pre, N_listing, N_textarea} /\ ~HasContent(ps.nodes, Cur(ps))
+        THEN (IF Len(data) = 1 THEN NoRe([ps EXCEPT !.dropLF = FALSE])
+              ELSE Chars([ps EXCEPT !.dropLF = FALSE, !.pttOrig = ps.mode, !.mode = "inTableText"], "inTableText", cls, Tail(data)))
+        ELSE Chars([ps EXCEPT !.pttOrig = ps.mode, !.mode = "inTableText"], "inTableText", cls, data)
     [] mode = "inTableText" -> IF cls = "nul" THEN NoRe(ps) ELSE NoRe([ps EXCEPT !.ptt = @ \o data])
     [] mode \in {"inCaption", "inCell"} ->
         \* html5lib: these phases inherit the base whitespace handler (plain insert: no reconstruction, no LF drop)
